@@ -584,6 +584,76 @@ def rule_K3(ctx, rule: str = "K3") -> None:
         ctx.proved(rule, "timestamp_to_json:four-digit-year", mod.loc(ts))
 
 
+K3B_MICROS = [0, 1, 7, 10, 999, 1000, 1001, 5000, 45000, 100000, 120000, 123456, 500000, 999000, 999999]
+
+
+def rule_K3b(ctx, rule: str = "K3b") -> None:
+    """the fractional-second groups of the Timestamp text, evaluated at distinguished microsecond values (none, whole
+    milliseconds, a sub-millisecond part below 100 that needs its leading zeros, both): the path each value takes is selected
+    with the analyser's evaluator and the text compared with the RFC 3339 form - 0, 3 or 6 digits, each group zero-padded"""
+    from .. import concrete
+    from ..sym import walk
+    mod = ctx.repo.mod(M_INIT)
+    fn = mod.func("_Timestamp.timestamp_to_json")
+    ctx.analysed("_Timestamp.timestamp_to_json")
+    params = [a.arg for a in fn.args.args if a.arg not in ("self", "cls")]
+    name = "timestamp_to_json:fraction-at-distinguished-microseconds"
+    if len(params) != 1:
+        ctx.inconclusive(rule, name, f"parameters {params}", mod.loc(fn))
+        return
+    paths = Interp(mod, fork_ifexp=True).run(fn)
+    ctx.count(len(paths))
+    bad = unknown = None
+    sentinel = object()
+    for aware in (False, True):
+        for us in K3B_MICROS:
+            sel, why = [], None
+            for p in paths:
+                env: Dict[Any, Any] = {}
+                for root in list(p.valuation) + ([p.value] if p.value is not None else []):
+                    for t in walk(root):
+                        if t[0] == "a" and t[2] == "microsecond":
+                            env[t] = us
+                        elif t[0] == "a" and t[2] == "tzinfo":
+                            env[t] = sentinel if aware else None
+                        elif t[0] == "a" and t[2] == "utc":
+                            env[t] = sentinel
+                        elif t[0] == "call" and t[1][0] == "a" and t[1][2] == "isoformat" and not t[2]:
+                            env[t] = "D"
+                        elif t[0] == "call" and t[1][0] == "a" and t[1][2] == "utcoffset":
+                            env[t] = sentinel if aware else None
+                try:
+                    if all(bool(concrete.ev(k, env)) == bool(v) for k, v in p.valuation.items() if k[0] != "raises"):
+                        sel.append((p, env))
+                except concrete.Unknown as e:
+                    why = str(e)
+                    break
+            if why is not None or len(sel) != 1:
+                unknown = unknown or f"microsecond={us}: {why or str(len(sel)) + ' paths selected'}"
+                continue
+            p, env = sel[0]
+            want = "D" + ("" if us == 0 else f".{us // 1000:03d}" if us % 1000 == 0 else f".{us:06d}") + "Z"
+            if p.outcome != "return" or p.value is None:
+                bad = bad or (us, f"<{p.outcome}>", want)
+                continue
+            try:
+                got = concrete.ev(p.value, env)
+            except concrete.Unknown as e:
+                unknown = unknown or f"microsecond={us}: text not evaluable ({e})"
+                continue
+            if got != want:
+                bad = bad or (us, got, want)
+    if bad:
+        us, got, want = bad
+        ctx.refuted(rule, name, f"{us}->{got}", mod.loc(fn), f"for a datetime with microsecond={us} the text is {str(got).replace('D', '<date>T<time>')!r}; RFC 3339 / proto3 JSON needs "
+                    f"{want.replace('D', '<date>T<time>')!r}: every fractional group keeps its leading zeros, otherwise the digits denote another instant (or the text does not parse)",
+                    f"M(ts=datetime(2020, 1, 1, microsecond={us}, tzinfo=timezone.utc)).to_json()")
+    elif unknown:
+        ctx.inconclusive(rule, name, unknown[:300], mod.loc(fn))
+    else:
+        ctx.proved(rule, name, mod.loc(fn), f"{len(K3B_MICROS)} microsecond values x naive/aware over {len(paths)} paths")
+
+
 # ---------------------------------------------------------------------------
 # J4-J6: decoder discipline of _from_dict_init; J5: JSON presence table of to_dict
 
